@@ -3,7 +3,11 @@
 case = {"tree": spec tree (dv.trees), "rooted": True|False|None, "tlabels": [label id of taxon k],
         "ns": [taxon index, ...] (namespace order, may hold taxa that are not on the tree),
         "cs": namespace is_case_sensitive, "ops": [op, ...], "tags": [group id | None, ...],
-        "coq": [bool, ...] (op goes to the Coq model as well / oracle only)}
+        "coq": [bool, ...] (op goes to the Coq model as well / oracle only),
+        optional "pre": {"tree": spec tree, "op": in-place op} - a two-step history: the library tree is
+        built from pre.tree, pre.op (prune_subtree / filter_leaf_nodes with suppress_unifurcations=False)
+        runs first and must leave exactly case["tree"] (checked, key pre-step:<op>); the ops then run on that
+        tree, which carries the unifurcations the earlier operation left behind}
 Every op runs on a FRESH build of the same tree.  label id l stands for the string
 ("t%d" if l even else "T%d") % (l // 2): ids 2k and 2k+1 differ only in case.
 """
@@ -16,7 +20,10 @@ from dv.core import cz, cbool, clist, copt
 HEADER = ("From DV Require Import Model.PyPrims Model.Tree Model.C08Model.\n"
           "From Coq Require Import ZArith. Open Scope Z_scope.")
 BASE = 1000
+QUICK_KEEPALL = 30
 
+GROUP_OPS = ("PruneTaxa", "PruneLabels", "RetainTaxa", "RetainLabels", "ExtractWithTaxa", "ExtractWithoutTaxa",
+             "ExtractWithLabels", "ExtractWithoutLabels")
 INPLACE = ("PruneTaxa", "PruneLabels", "RetainTaxa", "RetainLabels", "FilterLeaves", "PruneSubtree",
            "PruneNoTaxa", "SuppressUnif", "RemoveChild")
 
@@ -96,9 +103,36 @@ def build(case):
     objs = [dendropy.Taxon(label=lab_str(case["tlabels"][k])) for k in range(ntax)]
     for k in case["ns"]:
         ns.add_taxon(objs[k])
-    tree, by_id = trees.build_dendropy(case["tree"], objs, is_rooted=case["rooted"], namespace=ns)
+    pre = case.get("pre")
+    tree, by_id = trees.build_dendropy(pre["tree"] if pre else case["tree"], objs, is_rooted=case["rooted"],
+                                       namespace=ns)
     tix = {id(o): k for k, o in enumerate(objs)}
+    if pre:
+        apply_pre(tree, by_id, pre["op"])
     return tree, by_id, objs, tix
+
+
+def apply_pre(tree, by_id, op):
+    """the earlier step of a two-step history (always with suppression declined and no re-encoding)"""
+    if op[0] == "PruneSubtree":
+        tree.prune_subtree(by_id[op[1]], update_bipartitions=op[2], suppress_unifurcations=op[3])
+    elif op[0] == "FilterLeaves":
+        okset = set(op[1])
+        tree.filter_leaf_nodes(lambda nd: nd._dv_id in okset, recursive=op[2], update_bipartitions=op[3],
+                               suppress_unifurcations=op[4])
+    else:
+        raise RuntimeError("unknown pre-step %r" % (op,))
+
+
+def pre_ok(case):
+    """does the earlier step of a two-step history leave exactly case["tree"]?  -> None | description"""
+    tree, by_id, objs, tix = build(case)
+    d, problems = dump(tree, tix)
+    if problems:
+        return "pointer structure broken: %s" % problems[:3]
+    if d != case["tree"] or tree.is_rooted != case["rooted"]:
+        return "left %s (rooted=%r), expected %s" % (trees.newick(d), tree.is_rooted, trees.newick(case["tree"]))
+    return None
 
 
 def dump(tree, tix, start=None):
@@ -241,16 +275,26 @@ def op_sup(op):
 def encoding_fresh(tree, tix, sup=True):
     """update_bipartitions=True: the stored encoding equals a fresh encoding of a clone, and a fresh
     encoding (suppressing unifurcations only if the caller asked for that) does not restructure the
-    tree any further"""
+    tree any further.  -> [matches, stable] or the string "missing" (tree.bipartition_encoding is not a
+    list of bipartitions at all: the operation returned without encoding) / "edges-missing" (a list is
+    there but some edge of the tree has no bipartition)"""
     import dendropy
-    enc = [(b.leafset_bitmask, b.split_bitmask) for b in (tree.bipartition_encoding or [])]
+    stored = tree.bipartition_encoding
+    if stored is None:
+        return "missing"
+    try:
+        stored = list(stored)
+        enc = [(b.leafset_bitmask, b.split_bitmask) for b in stored]
+    except Exception:
+        return "missing"
+    if any(nd.edge.bipartition is None for nd in tree.preorder_node_iter()):
+        return "edges-missing"
     ix = lambda tr: {id(t): k for k, t in enumerate(tr.taxon_namespace)}
     # (a) the stored encoding describes the tree as it is
     clone = dendropy.Tree(tree)
     clone.encode_bipartitions(suppress_unifurcations=False, collapse_unrooted_basal_bifurcation=False)
     enc1 = [(b.leafset_bitmask, b.split_bitmask) for b in clone.bipartition_encoding]
-    edges_ok = all(nd.edge.bipartition is not None and any(nd.edge.bipartition is b for b in tree.bipartition_encoding)
-                   for nd in tree.preorder_node_iter())
+    edges_ok = all(any(nd.edge.bipartition is b for b in stored) for nd in tree.preorder_node_iter())
     matches = bool(enc == enc1 and edges_ok)
     # (b) a fresh default encoding of a clone gives the same list and does not restructure the tree
     clone = dendropy.Tree(tree)
@@ -262,7 +306,10 @@ def encoding_fresh(tree, tix, sup=True):
 
 
 def observe(case):
-    return [run_op(case, op) for op in case["ops"]]
+    obs = [run_op(case, op) for op in case["ops"]]
+    if case.get("pre") and obs:
+        obs[0]["pre_bad"] = pre_ok(case)
+    return obs
 
 
 # ------------------------------------------------------------------------------------------------
@@ -557,6 +604,11 @@ def check_op(case, op, o):
         gotc = canon_spec(got)
     wantc = canon_spec(want)
     unrooted_view = (not ex["new"]) and ex["upd"] and case["rooted"] is not True
+    if ex["upd"] and o.get("enc_ok") in ("missing", "edges-missing"):
+        return ("update_bipartitions=True was passed but %s: %s (result %s)"
+                % ("tree.bipartition_encoding is None afterwards (the operation returned without encoding)"
+                   if o["enc_ok"] == "missing" else "some edge of the tree has no bipartition afterwards",
+                   tag, trees.newick(got)), "encoding-missing:" + name)
     if ex["upd"] and o.get("enc_ok") and not o["enc_ok"][0]:
         return ("update_bipartitions=True left an encoding that does not describe the tree: %s" % tag,
                 "stale-encoding:" + name)
@@ -692,6 +744,10 @@ def check_removed(spec, got, ret, ex):
 
 def oracle(case, obs):
     first = None
+    if case.get("pre") and obs and obs[0].get("pre_bad"):
+        pop = case["pre"]["op"]
+        return ("earlier step %s on %s: %s" % (pop, trees.newick(case["pre"]["tree"]), obs[0]["pre_bad"]),
+                "pre-step:" + pop[0])
     for op, o in zip(case["ops"], obs):
         v = check_op(case, op, o)
         if v and first is None:
@@ -729,23 +785,32 @@ def oracle(case, obs):
 # generators
 # ------------------------------------------------------------------------------------------------
 
-def mk_group_ops(case, keep, upd, sup, rng=None, flipcase=False):
+def mk_group_ops(case, keep, upd, sup, rng=None, flipcase=False, full=0):
+    """full=1/2: the retain / extract-with lists also name every namespace taxon that is not on the tree,
+    so that "keep all" hands prune_taxa an EMPTY set; full=2 additionally pads the prune / extract-without
+    label lists with labels that match no taxon of the namespace"""
     ontree = [n["taxon"] for n in trees.leaves(case["tree"]) if n["taxon"] is not None]
     comp = [k for k in ontree if k not in keep]
     keep = [k for k in ontree if k in keep]
+    if full:
+        keep = keep + [k for k in case["ns"] if k not in ontree]
     if rng:
         rng.shuffle(comp)
         rng.shuffle(keep)
     lab = lambda k: (case["tlabels"][k] ^ 1) if flipcase else case["tlabels"][k]
+    nomatch = []
+    if full == 2:
+        top = 2 * (max(case["tlabels"] + [0]) // 2 + 1)
+        nomatch = [top + 2, top + 5]
     return [
         ["PruneTaxa", comp, upd, sup, True, False],
         ["RetainTaxa", keep, upd, sup],
         ["ExtractWithTaxa", keep, sup],
         ["ExtractWithoutTaxa", comp, sup],
-        ["PruneLabels", [lab(k) for k in comp], upd, sup, True, False],
+        ["PruneLabels", [lab(k) for k in comp] + nomatch, upd, sup, True, False],
         ["RetainLabels", [lab(k) for k in keep], upd, sup],
         ["ExtractWithLabels", [lab(k) for k in keep], sup],
-        ["ExtractWithoutLabels", [lab(k) for k in comp], sup],
+        ["ExtractWithoutLabels", [lab(k) for k in comp] + nomatch, sup],
     ]
 
 
@@ -765,6 +830,82 @@ def random_keep(rng, taxa):
     p = rng.choice([0.2, 0.5, 0.5, 0.8])
     out = [k for k in taxa if rng.random() < p]
     return out
+
+
+def renumber(spec):
+    for i, nd in enumerate(trees.preorder(spec)):
+        nd["id"] = i
+    return spec
+
+
+def force_unifurcation(rng, spec, k=1):
+    """wrap k random nodes of the spec tree in a new outdegree-one parent (ids renumbered in pre-order)"""
+    for _ in range(k):
+        nodes = trees.preorder(spec)
+        nd = rng.choice(nodes)
+        inner = dict(nd)
+        ln = rng.choice([None, 0, 512, 1024, 2048]) if nd["len"] is None else rng.choice([256, 512, 1024, 2048])
+        nd.update({"taxon": None, "label": None, "len": ln, "kids": [inner]})
+    return renumber(spec)
+
+
+def binary_parent_children(spec):
+    return [k["id"] for n in trees.preorder(spec) if len(n["kids"]) == 2 for k in n["kids"]]
+
+
+def add_pre_history(case, preop):
+    """turn `case` (ops still empty) into a two-step history: case["tree"] becomes what `preop`
+    (suppression declined) leaves, computed by the oracle's own restriction; -> False if not usable"""
+    ex = expected_for(case, preop)
+    if ex is None or ex["sup"] or ex["upd"]:
+        return False
+    mid = py_restrict(case["tree"], ex["keepl"], ex["keepi"], ex["keepe"], False)
+    if mid is None or not in_domain(mid) or not has_unifurcation(mid):
+        return False
+    import copy
+    case["pre"] = {"tree": case["tree"], "op": preop}
+    case["tree"] = copy.deepcopy(mid)
+    return True
+
+
+def gen_keepall_case(rng):
+    """the "nothing to remove" corner on a tree that still has something to normalise: a source with
+    outdegree-one nodes (built that way, or left behind by an earlier prune_subtree / filter_leaf_nodes
+    with suppress_unifurcations=False), all eight variants with the keep-all subset (retain lists name
+    the whole namespace, prune lists are empty or name labels that match nothing), then a second group
+    with a random subset"""
+    nl = rng.choice([1, 2, 2, 3, 3, 4, 5, 6, 8, 12])
+    lengths = rng.choice(["dyadic", "positive", "mixed", "none", "int", "positive"])
+    spec = trees.gen_tree(rng, nl, lengths=lengths, unifurcations=rng.choice([0.0, 0.2]),
+                          internal_labels=rng.choice([0.0, 0.4]))
+    ntax = nl + rng.randint(0, 2)
+    tl = [2 * k + (1 if rng.random() < 0.3 else 0) for k in range(ntax)]
+    nsorder = list(range(ntax))
+    rng.shuffle(nsorder)
+    case = {"tree": spec, "rooted": rng.choice([True, False, None, True]), "tlabels": tl, "ns": nsorder,
+            "cs": rng.random() < 0.25, "ops": [], "tags": [], "coq": []}
+    made = False
+    if nl >= 3 and rng.random() < 0.5:
+        if rng.random() < 0.7:
+            cands = binary_parent_children(spec)
+            if cands:
+                made = add_pre_history(case, ["PruneSubtree", rng.choice(cands), False, False])
+        else:
+            leafids = [n["id"] for n in trees.leaves(spec)]
+            drop = rng.choice(leafids)
+            made = add_pre_history(case, ["FilterLeaves", [i for i in leafids if i != drop], True, False, False])
+    if not made and not has_unifurcation(case["tree"]):
+        force_unifurcation(rng, case["tree"], rng.choice([1, 1, 2]))
+    spec = case["tree"]
+    ontree = [n["taxon"] for n in trees.leaves(spec) if n["taxon"] is not None]
+    sup = rng.random() < 0.85
+    for g, keep in enumerate([list(ontree), random_keep(rng, ontree)]):
+        upd = rng.random() < 0.4
+        ops = mk_group_ops(case, keep, upd, sup, rng, full=rng.choice([1, 2, 2]))
+        sel = range(8) if g == 0 else sorted(rng.sample(range(8), 3))
+        for j in sel:
+            case["ops"].append(ops[j]); case["tags"].append(g); case["coq"].append(True)
+    return case
 
 
 def gen_case(rng, big=False):
@@ -808,7 +949,7 @@ def gen_case(rng, big=False):
         sup = rng.random() < 0.7
         if k < 0.45 and ontree:
             keep = random_keep(rng, ontree)
-            ops = mk_group_ops(case, keep, upd, sup, rng, flipcase=rng.random() < 0.15)
+            ops = mk_group_ops(case, keep, upd, sup, rng, flipcase=rng.random() < 0.15, full=rng.choice([0, 0, 1, 2]))
             pick = rng.sample(range(8), 2 if big else rng.choice([2, 3, 4]))
             for j in sorted(pick):
                 case["ops"].append(ops[j]); case["tags"].append(g); case["coq"].append(True)
@@ -894,6 +1035,98 @@ def exhaustive_cases(rng, maxn, coq_maxn, coq_sample=0.0):
                 yield case
 
 
+def unif_shapes(nl, maxu):
+    """every shape with nl leaves in which 1..maxu nodes (any, the root included) have been given a new
+    outdegree-one parent"""
+    import copy
+    for shape in trees.all_shapes(nl):
+        def count(s):
+            return 1 + sum(count(k) for k in s)
+        N = count(shape)
+        for u in range(1, maxu + 1):
+            for pos in itertools.combinations(range(N), u):
+                ctr = [0]
+
+                def wrap(s):
+                    me = ctr[0]
+                    ctr[0] += 1
+                    out = [wrap(k) for k in s]
+                    return [out] if me in pos else out
+                yield wrap(copy.deepcopy(shape))
+
+
+def exhaustive_unif_cases(rng, maxn, maxu, coq_maxn, coq_sample=0.0, others=1.0, keepall_first=False):
+    """every shape with <= maxn leaves and 1..maxu pre-existing outdegree-one nodes x every non-empty
+    subset of its leaves, all eight API variants.  The keep-all subset (empty prune set, retain of the
+    whole namespace, labels that match nothing) always runs, with suppression requested and
+    update_bipartitions alternating; of the other subsets a fraction `others`."""
+    j = ka = 0
+    passes = (True, False) if keepall_first else (None,)
+    for only_all in passes:
+        for nl in range(1, maxn + 1):
+            for shape in unif_shapes(nl, maxu):
+                full_sub = 2 ** nl - 1
+                for sub in range(1, 2 ** nl):
+                    j += 1
+                    if only_all is True and sub != full_sub:
+                        continue
+                    if only_all is False and sub == full_sub:
+                        continue
+                    if sub != full_sub and others < 1.0 and rng.random() >= others:
+                        continue
+                    keep = [k for k in range(nl) if sub >> k & 1]
+                    spec = trees.shape_to_tree(shape, LEN_PATTERNS[j % 4 if j % 3 else 0], rng)
+                    case = {"tree": spec, "rooted": [True, False, None][j % 3], "tlabels": [2 * k for k in range(nl)],
+                            "ns": list(range(nl)), "cs": False, "ops": [], "tags": [], "coq": []}
+                    if sub == full_sub:
+                        ka += 1
+                        upd, sup = (ka % 2 == 0), True
+                    else:
+                        upd, sup = (j // 3) % 4 == 0, (j // 5) % 3 != 0
+                    ops = mk_group_ops(case, keep, upd, sup, full=2)
+                    incoq = nl <= coq_maxn or rng.random() < coq_sample
+                    for q in range(8):
+                        case["ops"].append(ops[q]); case["tags"].append(0); case["coq"].append(incoq)
+                    yield case
+
+
+def exhaustive_pre_cases(rng, maxn, coq_maxn, others=1.0):
+    """two-step histories: every shape with 2..maxn leaves, every child of a bifurcating node pruned by
+    prune_subtree(suppress_unifurcations=False) (leaves its parent as an outdegree-one node), then all
+    eight variants on every non-empty subset of the remaining leaves (keep-all always; retain lists name the
+    whole namespace, which still holds the pruned taxa)"""
+    j = ka = 0
+    for nl in range(2, maxn + 1):
+        for shape in trees.all_shapes(nl):
+            base = trees.shape_to_tree(shape, None, rng)
+            for nid in binary_parent_children(base):
+                j += 1
+                spec = trees.shape_to_tree(shape, LEN_PATTERNS[j % 4 if j % 3 else 0], rng)
+                proto = {"tree": spec, "rooted": [True, False, None][j % 3], "tlabels": [2 * k for k in range(nl)],
+                         "ns": list(range(nl)), "cs": False, "ops": [], "tags": [], "coq": []}
+                if not add_pre_history(proto, ["PruneSubtree", nid, False, False]):
+                    continue
+                left = [n["taxon"] for n in trees.leaves(proto["tree"])]
+                m = len(left)
+                for sub in range(1, 2 ** m):
+                    j += 1
+                    allsub = sub == 2 ** m - 1
+                    if not allsub and others < 1.0 and rng.random() >= others:
+                        continue
+                    import copy
+                    case = copy.deepcopy(proto)
+                    keep = [left[k] for k in range(m) if sub >> k & 1]
+                    if allsub:
+                        ka += 1
+                        upd, sup = (ka % 2 == 0), True
+                    else:
+                        upd, sup = (j // 3) % 4 == 0, (j // 5) % 3 != 0
+                    ops = mk_group_ops(case, keep, upd, sup, full=2)
+                    for q in range(8):
+                        case["ops"].append(ops[q]); case["tags"].append(0); case["coq"].append(nl <= coq_maxn)
+                    yield case
+
+
 def nontrivial(case, obs):
     return len(trees.leaves(case["tree"])) >= 3 and any(
         o["exc"] is None and (o["tree"] if o["k"] == "in" else o["new"]) is not None
@@ -907,12 +1140,18 @@ def count_case(ctx, case, obs):
     ctx.count("rooted=%s" % case["rooted"])
     if has_unifurcation(case["tree"]):
         ctx.count("source has unifurcations")
+    if case.get("pre"):
+        ctx.count("two-step history: source left by %s(suppress_unifurcations=False)" % case["pre"]["op"][0])
     if not all_lengths(case["tree"]):
         ctx.count("source has None lengths")
     if not in_domain(case["tree"]):
         ctx.count("outside domain (internal taxa / bare leaves): correspondence only")
     for op, o in zip(case["ops"], obs):
         ctx.count("op " + op[0])
+        if has_unifurcation(case["tree"]) and in_domain(case["tree"]) and op[0] in GROUP_OPS:
+            ex = expected_for(case, op)
+            if ex is not None and all(ex["keepl"](n) for n in trees.leaves(case["tree"])):
+                ctx.count("keep-all subset on a source with unifurcations: " + op[0])
         ctx.count("outcome %s:%s" % (op[0], o["exc"] or "ok"))
         if o["exc"] is None:
             t = o["tree"] if o["k"] == "in" else o["new"]
@@ -945,10 +1184,14 @@ def sweep(ctx, cases, budget_s=None):
 
 def search(ctx, budget_s):
     rng = ctx.rng
-    n = sweep(ctx, exhaustive_cases(rng, 6, 0), budget_s * 0.6)
+    # sources with outdegree-one nodes (built in, or left by an earlier prune_subtree(suppress_unifurcations=False)):
+    # keep-all subsets first, then every other subset
+    n = sweep(ctx, exhaustive_unif_cases(rng, 4, 2, 0, keepall_first=True), budget_s * 0.12)
+    n += sweep(ctx, exhaustive_pre_cases(rng, 5, 0), budget_s * 0.08)
+    n += sweep(ctx, exhaustive_cases(rng, 6, 0), budget_s * 0.45)
     t0 = time.time()
-    while time.time() - t0 < budget_s * 0.4:
-        n += sweep(ctx, [gen_case(rng) for _ in range(50)])
+    while time.time() - t0 < budget_s * 0.35:
+        n += sweep(ctx, [gen_case(rng) for _ in range(40)] + [gen_keepall_case(rng) for _ in range(10)])
     ctx.notes.append("search: %d implementation runs judged by the oracle" % n)
 
 
@@ -980,9 +1223,15 @@ def run(tier, seed, replay=None):
         cases = [gen_case(rng) for _ in range(260)] + [gen_case(rng, big=True) for _ in range(14)]
         small = list(exhaustive_cases(rng, 4, 3))
         cases += [c for c in small if len(trees.leaves(c["tree"])) <= 3 or rng.random() < 0.4]
+        cases += [gen_keepall_case(rng) for _ in range(QUICK_KEEPALL)]
+        cases += list(exhaustive_unif_cases(rng, 3, 2, 3, others=0.15))
+        cases += list(exhaustive_pre_cases(rng, 4, 4, others=0.15))
     else:
         cases = [gen_case(rng) for _ in range(3000)] + [gen_case(rng, big=True) for _ in range(150)]
         cases += list(exhaustive_cases(rng, 5, 5))
+        cases += [gen_keepall_case(rng) for _ in range(400)]
+        cases += list(exhaustive_unif_cases(rng, 4, 2, 3, coq_sample=0.2))
+        cases += list(exhaustive_pre_cases(rng, 5, 4))
         big = [c for c in exhaustive_cases(rng, 7, 0, coq_sample=0.02) if len(trees.leaves(c["tree"])) >= 6]
         incoq = [c for c in big if c["coq"][0]]
         rest = [c for c in big if not c["coq"][0]]
@@ -1011,4 +1260,11 @@ def run(tier, seed, replay=None):
                            "nodes, all with random update_bipartitions / suppress_unifurcations; plus every shape "
                            "x every leaf subset for <= 3 leaves and a 40% sample for 4 (quick); <= 5 leaves in Coq, "
                            "6-7 leaves all subsets by the oracle with a 2% sample in Coq (thorough). "
+                           "Wave 8: keep-all subsets handing prune_taxa an EMPTY set (retain lists naming the whole namespace, empty "
+                           "prune lists, labels that match nothing) on sources that carry outdegree-one nodes - built in, or "
+                           "left behind by an earlier prune_subtree / filter_leaf_nodes(suppress_unifurcations=False) run on "
+                           "the same library tree (two-step history, the intermediate tree checked too): random cases, every "
+                           "shape with <= 3 leaves and 1-2 outdegree-one nodes (quick; <= 4 thorough) and every "
+                           "prune_subtree history on <= 4 leaves (quick; <= 5 thorough), all eight variants; after "
+                           "update_bipartitions=True a missing encoding is reported as encoding-missing:<op>. "
                            "Non-trivial = tree with >= 3 leaves on which some operation removed a node; distinct by case content")
